@@ -95,6 +95,11 @@ def build_labware(spec, shared=None):
         arr = shared.setdefault(spec["share"], np.array(spec["init"], dtype=float))
         cls, extra = (rt.Trough, {"column_names": spec.get("names")}) if spec["kind"] == "trough" else (rt.Labware, {"component_names": spec.get("names")})
         return cls(spec["name"], spec["rows"], spec["cols"], min_volume=spec["min"], max_volume=spec["max"], initial_volumes=arr, **extra)
+    if spec.get("np") and shared is not None:
+        # the caller keeps its own float64 array; the labware must neither alias nor modify it
+        arr = shared.setdefault("caller:" + spec["name"], np.array(spec["init"], dtype=float))
+        cls, extra = (rt.Trough, {"column_names": spec.get("names")}) if spec["kind"] == "trough" else (rt.Labware, {"component_names": spec.get("names")})
+        return cls(spec["name"], spec["rows"], spec["cols"], min_volume=spec["min"], max_volume=spec["max"], initial_volumes=arr, **extra)
     if spec["kind"] == "trough":
         return rt.Trough(
             spec["name"],
